@@ -47,6 +47,8 @@ const FAULTS: &[(&str, &str)] = &[
     ("class A { int v = 1; }\ndefset list<A> S = { def d : Nope; }\n", "Nope"),                              // undefined class inside a defset
     ("class A<int x> { int v = x; }\ndefvar c = A<1, 2>.v;\n", "A<1, 2>"),                                   // surplus template argument of a class value
     ("class A<int x> { int v = x; }\ndef d : A<y = 1>;\n", "y"),                                             // named argument that does not exist
+    ("class R<int size, string prefix = \"r\"> { int s = size; string p = prefix; }\ndef d : R<1, \"prefix\" = 7>;\n", "\"prefix\" = 7"),   // type-incompatible NAMED argument
+    ("class R<int size, string prefix = \"r\"> { int s = size; string p = prefix; }\nmulticlass B<int w, string tag = \"b\"> { def _l : R<w, \"prefix\" = tag>; }\ndefm g : B<32, \"tag\" = 7>;\n", "\"tag\" = 7"),   // ... of a defm
     ("class A { int v = 1; }\ndefvar w = A<>.nofield;\n", "nofield"),                                        // undefined field
     ("defvar v = !foldl(0, [1], acc);\n", "!foldl(0, [1], acc)"),                                             // wrong operator arity (foldl)
 ];
